@@ -67,6 +67,8 @@ def run_step(step, heap):
     if op == "newvec":
         return specs.build_vector(a["spec"])
     if op == "copy":
+        if a.get("cw"):
+            return x.copy_with()
         return x.copy()
     if op == "factors":
         # the factors themselves (not only gauge-invariant observables): the
@@ -212,7 +214,10 @@ def run_step(step, heap):
     if op == "unfuse_all":
         return x.unfuse_all(**ip)
     if op == "reshape":
-        return _call(st, "reshape", x, tuple(a["shape"]), **ip)
+        shp = tuple(a["shape"])
+        if a.get("form") == "list" and st not in ("func", "do"):
+            shp = list(shp)
+        return _call(st, "reshape", x, shp, **ip)
     if op == "squeeze":
         ax = a["axis"]
         if isinstance(ax, list):
@@ -354,6 +359,8 @@ def run_step(step, heap):
         s_ = untuple(a["s"])
         if a.get("np"):
             s_ = np.asarray(s_)
+        if a.get("rev"):
+            return sr.tensordot(s_, x)
         return sr.tensordot(x, s_)
     if op == "get_params":
         return tuple(np.asarray(b) for b in x.get_params().values()) or None
@@ -757,7 +764,8 @@ def g_copy(ctx, heap):
     n = _pick(ctx, heap, "AFV")
     if n is None:
         return None
-    return [{"op": "copy", "in": [n], "out": [ctx.fresh()], "a": {}}]
+    a = {"cw": True} if ctx.rng.random() < 0.25 else {}
+    return [{"op": "copy", "in": [n], "out": [ctx.fresh()], "a": a}]
 
 
 def g_index_ops(ctx, heap):
@@ -1028,6 +1036,8 @@ def g_reshape(ctx, heap):
     if ctx.inplace():
         a["inplace"] = True
     a["style"] = ctx.style("func", "do")
+    if rng.random() < 0.2:
+        a["form"] = "list"
     return [{"op": "reshape", "in": [n], "out": _out(ctx, n, a), "a": a}]
 
 
@@ -1363,14 +1373,41 @@ def _same_shape_partner(ctx, x, same_sectors):
     return spec
 
 
+def _some_vector(ctx, heap, steps):
+    """Name of a BlockVector: one from the heap or a new one over the charge
+    table of an index of some array (vectors are otherwise only produced by
+    decompositions, so their arithmetic would hardly ever run)."""
+    rng = ctx.rng
+    vs_ = names_of(heap, "V")
+    if vs_ and rng.random() < 0.6:
+        return rng.choice(vs_)
+    n = _pick(ctx, heap, "AF", pred=lambda v: v.ndim >= 1)
+    if n is None:
+        return None
+    x = heap[n]
+    ix = rng.choice(list(x.indices))
+    cm = [[jsonable(c), int(d)] for c, d in ix.chargemap.items()]
+    spec = {"cm": cm, "seed": rng.randrange(2**31), "dtype": _dtype_of(x),
+            "dist": "int", "positive": rng.random() < 0.7}
+    nv = ctx.fresh()
+    steps.append({"op": "newvec", "in": [], "out": [nv], "a": {"spec": spec}})
+    heap[nv] = specs.build_vector(spec)
+    return nv
+
+
 def g_arith2(ctx, heap):
     rng = ctx.rng
-    n = _pick(ctx, heap, "AFV")
+    steps = []
+    n = None
+    if rng.random() < 0.2:
+        heap = dict(heap)
+        n = _some_vector(ctx, heap, steps)
+    if n is None:
+        n = _pick(ctx, heap, "AFV")
     if n is None:
         return None
     x = heap[n]
     k = kind_of(x)
-    steps = []
     if k == "V":
         op = rng.choice(["add", "sub", "mul", "div", "pow"])
         cm = [[jsonable(c), int(np.size(b))] for c, b in x.blocks.items()]
@@ -1401,7 +1438,13 @@ def g_arith2(ctx, heap):
 
 def g_arith1(ctx, heap):
     rng = ctx.rng
-    n = _pick(ctx, heap, "AFV")
+    pre = []
+    n = None
+    if rng.random() < 0.2:
+        heap = dict(heap)
+        n = _some_vector(ctx, heap, pre)
+    if n is None:
+        n = _pick(ctx, heap, "AFV")
     if n is None:
         return None
     x = heap[n]
@@ -1416,8 +1459,8 @@ def g_arith1(ctx, heap):
     if op != "neg":
         a["s"] = 2 if op in ("pow_s", "rpow_s") else _scalar(rng, cplx)
     if ctx.inplace() and op in ("mul_s", "div_s", "add_s", "sub_s", "pow_s"):
-        return [{"op": "i" + op, "in": [n], "out": [n], "a": a}]
-    return [{"op": op, "in": [n], "out": [ctx.fresh()], "a": a}]
+        return pre + [{"op": "i" + op, "in": [n], "out": [n], "a": a}]
+    return pre + [{"op": op, "in": [n], "out": [ctx.fresh()], "a": a}]
 
 
 def g_unary(ctx, heap):
@@ -1476,7 +1519,8 @@ def g_tdot_scalar(ctx, heap):
     if n is None:
         return None
     return [{"op": "tensordot_s", "in": [n], "out": [ctx.fresh()],
-             "a": {"s": _scalar(ctx.rng), "np": ctx.rng.random() < 0.5}}]
+             "a": {"s": _scalar(ctx.rng), "np": ctx.rng.random() < 0.5,
+                   "rev": ctx.rng.random() < 0.3}}]
 
 
 def g_div_arrays(ctx, heap):
